@@ -69,6 +69,8 @@ FUNCTIONS = {
             "forall(L.nodes, lambda l: implies(l not in mapping, is_index(result[1][l]) and not G.has_node(result[1][l]) and result[0].has_node(result[1][l]) "
             "       and result[0].nodes[result[1][l]].get('element') == '*'))",
             "forall((L.nodes, L.nodes), lambda a, b: implies(a not in mapping and b not in mapping and not same(a, b), result[1][a] != result[1][b]))",
+            # every bond of the pattern is present between the images of its ends
+            "forall(L.edges, lambda u, v: result[0].has_edge(result[1][u], result[1][v]))",
         ],
         "loops": {
             1: {"modifies": ["G_ext.nodes", "G_ext.nattr"],
@@ -97,6 +99,8 @@ FUNCTIONS = {
                     "forall((L.nodes, L.nodes), lambda a, b: implies(a not in mapping and b not in mapping and not same(a, b), L_to_G[a] != L_to_G[b]))",
                     "forall(G.nodes, lambda n: G_ext.has_node(n) and same(G_ext.nodes[n], G.nodes[n]))",
                     "forall(G.edges, lambda u, v: G_ext.has_edge(u, v))",
+                    "forall(L.nodes, lambda l: l in L_to_G)",
+                    "forall(done, lambda u, v: G_ext.has_edge(L_to_G[u], L_to_G[v]))",
                 ]},
             3: {"modifies": [], "inv": ["True"]},
         },
